@@ -97,10 +97,31 @@ type c13Target struct {
 	NRandom      int
 	MaxKeys      int
 	MaxCuts      int // 0 = unlimited; cap for expensive openers (keeps bounds first, then random)
+	// Shard/NShards: this target handles the cuts whose rank in the cut list is Shard mod NShards
+	// (expensive every-offset sweeps are spread over several workers)
+	Shard, NShards int
 	Cleanup      func()
 }
 
-func (t *c13Target) name() string { return t.Fixture + "/" + t.Site }
+func (t *c13Target) name() string {
+	if t.NShards > 1 {
+		return fmt.Sprintf("%s/%s#%d", t.Fixture, t.Site, t.Shard)
+	}
+	return t.Fixture + "/" + t.Site
+}
+
+func (t *c13Target) shard(cuts []int64) []int64 {
+	if t.NShards <= 1 {
+		return cuts
+	}
+	var out []int64
+	for i, c := range cuts {
+		if i%t.NShards == t.Shard {
+			out = append(out, c)
+		}
+	}
+	return out
+}
 
 type c13Replay struct {
 	Seed    int64  `json:"seed"`
@@ -182,7 +203,7 @@ func c13Cuts(t *c13Target, rng *rand.Rand, keyIdx []int) (cuts []int64, exhausti
 		for c := t.Size - 1; c >= 0; c-- {
 			cuts = append(cuts, c)
 		}
-		return cuts, true
+		return t.shard(cuts), true
 	}
 	set := map[int64]struct{}{}
 	var order []int64
@@ -197,7 +218,11 @@ func c13Cuts(t *c13Target, rng *rand.Rand, keyIdx []int) (cuts []int64, exhausti
 		order = append(order, c)
 	}
 	// the file's two ends first
-	for d := int64(0); d < 9; d++ {
+	nEnds := int64(9)
+	if t.MaxCuts > 0 && t.MaxCuts < 100 {
+		nEnds = 2
+	}
+	for d := int64(0); d < nEnds; d++ {
 		add(d)
 		add(t.Size - 1 - d)
 	}
@@ -231,7 +256,7 @@ func c13Cuts(t *c13Target, rng *rand.Rand, keyIdx []int) (cuts []int64, exhausti
 		order = order[:t.MaxCuts]
 	}
 	sort.Slice(order, func(i, j int) bool { return order[i] > order[j] })
-	return order, false
+	return t.shard(order), false
 }
 
 func c13KeySample(n, max int, rng *rand.Rand) []int {
@@ -455,7 +480,7 @@ func TestVerifC13(t *testing.T) {
 	os.MkdirAll(root, 0o755)
 	defer os.RemoveAll(root)
 
-	parts := []string{"compact-index", "sig-exists", "slot-to-blocktime", "gsfa", "car", "epoch-index-files"}
+	parts := []string{"compact-index", "sig-exists", "slot-to-blocktime", "gsfa", "car", "epoch-index-files", "jsonrpc"}
 	recs := map[string]*c13Rec{}
 	for _, p := range parts {
 		recs[p] = c13NewRec(p)
@@ -472,6 +497,8 @@ func TestVerifC13(t *testing.T) {
 	recs["car"].Rule("CAR file cut x every section CID through NewEpochFromConfig + Epoch.GetNodeByCid, local (carv2 reader) and remote (HTTP range reader); distinct as in compact-index")
 	recs["epoch-index-files"].Rule("each index file of a loaded epoch cut (others complete) through NewEpochFromConfig (mmap and remote HTTP) + FindOffsetAndSizeFromCid / FindCidFromSlot / FindCidFromSignature / sigExists.Has / GetBlocktime / gsfaReader.Get; distinct as in compact-index")
 
+	recs["jsonrpc"].Rule("one layer up: a server with two epochs loaded (one complete, one with exactly one file cut) asked over JSON-RPC (getTransaction, getBlock, getBlockTime, getSignaturesForAddress) for every archived key of the cut epoch; same response as with the complete file, or an error response other than not-found (-32009); distinct as in compact-index")
+
 	fxs, err := c13BuildFixtures(root, c13Seed())
 	if err != nil {
 		for _, r := range recs {
@@ -487,6 +514,7 @@ func TestVerifC13(t *testing.T) {
 	targets = append(targets, c13BlocktimeTargets(fxs)...)
 	targets = append(targets, c13GsfaTargets(fxs)...)
 	targets = append(targets, c13EpochTargets(fxs)...)
+	targets = append(targets, c13RpcTargets(fxs)...)
 	for _, e := range fxs.setupErrs {
 		recs[e.part].Inconclusive(e.msg)
 	}
@@ -528,10 +556,16 @@ func c13Cost(t *c13Target) int64 {
 	if t.MaxCuts > 0 && n > int64(t.MaxCuts) {
 		n = int64(t.MaxCuts)
 	}
+	if t.NShards > 1 {
+		n /= int64(t.NShards)
+	}
 	w := int64(1)
+	if strings.Contains(t.Site, "remote") {
+		w = 4
+	}
 	switch t.Part {
-	case "car", "epoch-index-files":
-		w = 400
+	case "car", "epoch-index-files", "jsonrpc":
+		w *= 400
 	case "slot-to-blocktime", "gsfa":
 		w = 100
 	case "sig-exists":
